@@ -1,9 +1,103 @@
 import QecVerif.Model.Wire
+import QecVerif.Model.Stream
 namespace Qec.Drv
-open Qec Qec.Wire
+open Qec Qec.Wire Qec.Stream
+
+namespace C17w
+
+/-- comma separated rationals, `_` for the empty list -/
+def parseRatList? (s : String) : Option (List Rat) :=
+  if s == "_" then some [] else (s.splitOn ",").mapM parseRat?
+
+def showRatList (l : List Rat) : String :=
+  if l.isEmpty then "_" else ",".intercalate (l.map showRat)
+
+/-- a stream prefix `den:k1,k2,…` (all uniforms share the denominator, numpy doubles: 2^53) -/
+def parseStream? (s : String) : Option (Array Rat) :=
+  match s.splitOn ":" with
+  | [d, ks] => do
+      let d ← d.toNat?
+      if d = 0 then none else
+      let ks ← parseIntList? ks
+      pure (ks.map fun k => mkRat k d).toArray
+  | _ => none
+
+def toStream (a : Array Rat) : UStream := fun i => a.getD i 0
+
+def showPStr (p : PStr) : String := if p.isEmpty then "_" else String.ofList (p.map P1.toChar)
+
+def parsePStr? (s : String) : Option PStr :=
+  if s == "_" then some [] else s.toList.mapM P1.ofChar?
+
+def showStep (ef : BVec × BVec) : String := showBits ef.1 ++ "|" ++ showBits ef.2
+def showRun (r : List (BVec × BVec)) : String := if r.isEmpty then "." else ",".intercalate (r.map showStep)
+def showRuns (rs : List (List (BVec × BVec))) : String :=
+  if rs.isEmpty then "-" else ";".intercalate (rs.map showRun)
+
+/-- the uniforms a whole `runMany` compares against each cdf: positions of error draws and of flip
+    draws are interleaved, so range-check every consumed uniform against both alphabets' sizes -/
+def runInRange (n m : Nat) (cdfE : List Rat) (q : Rat) (cdfM : List Rat) (s : UStream) (T R : Nat) : Bool :=
+  let stepLen := n + (if q = 0 then 0 else m)
+  (List.range (R * T)).all fun k =>
+    inRange cdfE (draws s (k * stepLen) n) && (q == 0 || inRange cdfM (draws s (k * stepLen + n) m))
+
+end C17w
+open C17w
 
 /-- driver ops of property C17 (first protocol token `c17`) -/
 def c17 : List String → Option String
+  -- searchsorted(cdf, u, 'right'): the scan and the count form
+  | ["idx", cdf, u] => do
+      let cdf ← parseRatList? cdf; let u ← parseRat? u
+      pure s!"{choiceIdx cdf u} {cdf.countP (· ≤ u)}"
+  -- exact normalised cumulative sum of a distribution
+  | ["cdf", dist] => do
+      let dist ← parseRatList? dist
+      pure (showRatList (cdfOf dist))
+  -- SimpleErrorModel.generate: with the float cdf numpy computed, and with the exact cdf of dist
+  | ["gen", n, dist, cdf, us, pos] => do
+      let n ← parseNat? n; let dist ← parseRatList? dist; let cdf ← parseRatList? cdf
+      let a ← parseStream? us; let pos ← parseNat? pos
+      if pos + n > a.size then pure "stream-exhausted" else
+      let s := toStream a
+      if !(inRange cdf (draws s pos n)) || !(inRange (cdfOf dist) (draws s pos n)) then pure "IndexError" else
+      pure s!"ok {showBits (generate n cdf s pos)} {showBits (generateD n dist s pos)} {pos + n}"
+  -- the intermediate Pauli string
+  | ["pauli", n, cdf, us, pos] => do
+      let n ← parseNat? n; let cdf ← parseRatList? cdf
+      let a ← parseStream? us; let pos ← parseNat? pos
+      if pos + n > a.size then pure "stream-exhausted" else
+      let s := toStream a
+      if !(inRange cdf (draws s pos n)) then pure "IndexError" else
+      pure s!"ok {showPStr (generatePauli n cdf s pos)}"
+  | ["tobsf", p] => do
+      let p ← parsePStr? p; pure (showBits (toBsf p))
+  -- one step's measurement flips
+  | ["meas", m, q, cdfM, us, pos] => do
+      let m ← parseNat? m; let q ← parseRat? q; let cdfM ← parseRatList? cdfM
+      let a ← parseStream? us; let pos ← parseNat? pos
+      if pos + m > a.size then pure "stream-exhausted" else
+      let s := toStream a
+      if q ≠ 0 && (!(inRange cdfM (draws s pos m)) || !(inRange (cdfOf (measDist q)) (draws s pos m))) then
+        pure "IndexError" else
+      let f := measFlips m q cdfM s pos
+      let g := measFlipsQ m q s pos
+      pure s!"ok {showBits f.1} {f.2} {showBits g.1} {g.2}"
+  -- R runs of T steps from one stream; q may be N (default rule)
+  | ["run", r, t, n, m, p, q, dist, cdfE, cdfM, us] => do
+      let r ← parseNat? r; let t ← parseNat? t; let n ← parseNat? n; let m ← parseNat? m
+      let p ← parseRat? p; let q ← parseOptRat? q
+      let dist ← parseRatList? dist; let cdfE ← parseRatList? cdfE; let cdfM ← parseRatList? cdfM
+      let a ← parseStream? us
+      let qq := resolveQ q t p
+      let need := r * t * (n + (if qq = 0 then 0 else m))
+      if need > a.size then pure "stream-exhausted" else
+      let s := toStream a
+      if !(runInRange n m cdfE qq cdfM s t r) || !(runInRange n m (cdfOf dist) qq (cdfOf (measDist qq)) s t r) then
+        pure "IndexError" else
+      let f := runMany n m cdfE qq cdfM s t r 0
+      let g := runMany n m (cdfOf dist) qq (cdfOf (measDist qq)) s t r 0
+      pure s!"ok q={showRat qq} {showRuns f.1} {f.2} {showRuns g.1} {g.2}"
   | _ => none
 
 end Qec.Drv
